@@ -379,3 +379,23 @@ Fixpoint tree_frames (fs : list (option N)) (pos : list Z) : list (Z * N) :=
   end.
 Definition written_frames (fs : list (option N)) (pos : list Z) : list (Z * N) := [].
 Definition has_frames (fs : list (option N)) : bool := existsb (fun o => match o with Some _ => true | None => false end) fs.
+
+(* ======================= the BootstrapMethods table (pool.rs put_bootstrap_method) =========== *)
+(* an entry = (handle, argument pool indices), abstracted to a key; index = position in the Vec *)
+Record bsm := { b_inner : list (list N) (* reversed *); b_map : list (list N * Z) }.
+Definition bsm_new : bsm := {| b_inner := []; b_map := [] |}.
+Fixpoint bfind (m : list (list N * Z)) (e : list N) : option Z :=
+  match m with
+  | [] => None
+  | (k, v) :: m' => if str_eqb k e then Some v else bfind m' e
+  end.
+Definition bsm_put (t : bsm) (e : list N) : res (bsm * Z) :=
+  match bfind (b_map t) e with
+  | Some i => Ok (t, i)
+  | None =>
+      let index := zlen (b_inner t) in
+      if u16max <? index then Err                                   (* vec.len().try_into::<u16>() *)
+      else Ok ({| b_inner := e :: b_inner t; b_map := (e, index) :: b_map t |}, index)
+  end.
+Definition bsm_get (t : bsm) (i : Z) : option (list N) :=
+  if i <? 0 then None else nth_error (frev (b_inner t)) (Z.to_nat i).
